@@ -24,7 +24,7 @@ def cell_tree(c):
 ALIAS = {
     'seq_no': ['seq_no', 'seqno'], 'rest': [''], 'a': [''], 'b': [''], 'state_init': ['state_init', ''],
     'storage_ph': ['storage_ph', 'storage'], 'credit_ph': ['credit_ph', 'credit'], 'compute_ph': ['compute_ph', 'compute'],
-    'prev': ['prev', ''], 'master': ['master', ''], 'blk_ref': ['blk_ref', ''], 'vert_seq_no': ['vert_seq_no', 'vert_seqno'],
+    'cc': [''], 'prev': ['prev', ''], 'master': ['master', ''], 'blk_ref': ['blk_ref', ''], 'vert_seq_no': ['vert_seq_no', 'vert_seqno'],
 }
 # schema fields the library reads but does not expose (nothing to compare)
 UNEXPOSED = {('CatchainConfig', 'flags')}
